@@ -99,6 +99,11 @@ def worker(args):
                     c = None
                 yield i, c
         it = gen()
+    if args.shard == 0 and hasattr(prop, "witness_cases"):
+        # the recorded witness of every known finding of this property is replayed on every run (first shard), so that the
+        # KNOWN-FINDING line is printed deterministically while the defect exists - and disappears when it is repaired
+        import itertools
+        it = itertools.chain(((-1 - k, c) for k, c in enumerate(prop.witness_cases())), it)
     tstart = time.time()
     budget = float(cfg.get("shard_budget_s", 0))
     for i, case in it:
